@@ -19,20 +19,29 @@ import struct, warnings
 import lib, fatimg, fatspec, fatops
 
 SPEC_THEOREMS = {
-    'FV_unlink_inv / FV_unlink_refines': 'unlink keeps VolInv; outcome and tree = spec_unlink (failures leave the state unchanged)',
-    'FV_mkdir_inv / FV_mkdir_refines': 'mkdir keeps VolInv when it does not end in ENOSPC; outcome and tree = spec_mkdir',
-    'FV_mkdir_enospc_leaks_refuted': 'witness: mkdir that fails with ENOSPC in the parent leaves the new cluster marked (lost cluster)',
-    'FV_rmdir_inv / FV_rmdir_refines': 'rmdir keeps VolInv; outcome and tree = spec_rmdir',
-    'FV_file_op_inv / FV_file_op_refines': 'open(w/x/a/r+) + one write / truncate / touch + close keeps VolInv; tree = spec',
-    'FV_rename_inv / FV_rename_refines': 'rename (all branches) keeps VolInv; outcome and tree = spec_rename',
-    'FV_history_refines': 'any operation list: VolInv at every point, outcomes and final tree = the plain tree model',
-    'FV_alias_key_refuted': 'witness: the size write-back keyed by the 8.3 alias lands on another entry whose upper-cased long name equals it',
+    'FV_step_inv': 'every operation (touch / open+write|truncate+close / unlink / mkdir / rmdir / rename), EVERY outcome incl. ENOSPC and '
+                   'other failures, keeps VolInv: chains well-formed per FatAlloc, pairwise disjoint, no lost cluster, sizes = chain lengths, '
+                   "empty files own nothing, every sub-directory named by exactly one entry with '.' = itself and '..' = its parent, names / "
+                   'aliases unique, the directory graph is a tree (depth function)',
+    'FV_step_refines': 'outcome and tree (names, kinds, sizes, order) = the plain tree model, for every outcome but ENOSPC',
+    'FV_failure_keeps_tree': 'a failed operation (other than ENOSPC) leaves the tree unchanged',
+    'FV_unlink_fail_unchanged / FV_rmdir_fail_unchanged': 'a failed unlink / rmdir leaves the whole state (FAT included) unchanged',
+    'FV_rename_inv / FV_rename_refines': 'rename in FULL: onto a new name, onto an existing file, onto itself / a case variant, directories '
+                                         "with the '..' fix-up and the into-itself guard (compared by first cluster)",
+    'FV_mkdir_inv': 'mkdir keeps VolInv also when storing the entry fails: the reserved cluster is released again (mkdir_tail_spec: the '
+                    'entries of every directory are then unchanged; only the FSInfo next-free hint moved)',
+    'FV_history_inv / FV_history_refines': 'any operation list: VolInv at the end (at every point), outcomes and final tree = spec_run',
+    'FV_example / FV_enospc_keeps_prefix / FV_failures_unchanged': 'non-vacuity: a concrete volume and history satisfy every guard; a write '
+                                                                  'that hits ENOSPC keeps a prefix (why ENOSPC is outside the refinement)',
 }
 TRUSTED = [
-    'Coq 8.16.1 kernel; vm_compute only in the Examples / _refuted witnesses of FatVol',
+    'Coq 8.16.1 kernel; vm_compute only in the Examples of FatVol/ProofsEx.v',
     'extraction (ExtrOcamlBasic), runner/driver.ml, OCaml',
     'abstraction: directory records as decoded entries + dead slots (justified by FatDir view theorems), cluster data and '
     'timestamps ignored, str.upper() passed in as a table, paths without "." / ".." components',
+    'guards of the theorems: params_wf; path components without "~" after upper() (they cannot be mistaken for a generated alias); '
+    'guard_create (when an entry is created _get_names succeeds and its name / alias collide with nothing in the directory -- '
+    'FatNames.alias_unique is the lower-layer theorem); ENOSPC excluded from the refinement only',
     'the lower layers are separate theorems: FatTable (bytes of the FAT), FatAlloc (chains), FatData (file bytes), FatDir / FatNames (records)',
     'harness/fatimg.py image synthesis; the specification reader Fat/Spec.v + Fat/Check.v (validated in C03)',
 ]
@@ -272,6 +281,8 @@ class Pair:
         # (ENOSPC is no outcome of the plain tree; ops addressed through an 8.3 alias are outside the theorems' guard)
         if mout != 'ENOSPC' and expect is None and not self.unguarded:
             ctx.stat('vol-refinement-evaluated')
+            if '~' not in (op['path'] + op.get('target', '')):
+                ctx.stat('vol-refinement-inside-the-path-guard')
             if sres != mres or out[2] != out[3]:
                 ctx.violation(f'{sig}/refinement:{op["op"]}', f'{jop}: model outcome {mres}, tree {show_node(out[3])}; '
                               f'specification outcome {sres}, tree {show_node(out[2])}', self.replay())
